@@ -3,7 +3,7 @@ import sys
 from harness import common
 from symrun import loader
 loader.install()
-from harness.explore import Explore, make_jobs  # noqa: E402
+from harness.explore import Explore, make_jobs, make_random_jobs  # noqa: E402
 from harness.composed import THIRD  # noqa: E402
 
 MOOD = {"happy": "happy", "LonelyError": "lonely", "WrongPasswordError": "scary", "ServerError": "errory", "WelcomeError": "unwelcome"}
@@ -94,10 +94,15 @@ class CloseExplore(Explore):
                 out.append(("happy without a verified peer message", c.name))
             # server-side resources
             if srv.holds_claim(c.side):
-                if c.boss._N._nameplate is None:
+                leaked = sorted(k for k, v2 in srv.nameplates.items() if c.side in v2["sides"])
+                known = c.boss._N._nameplate
+                if known is None:
                     out.append(("claim made by an in-flight allocate not released (closed before `allocated` was received)", c.name))
+                elif known in leaked:
+                    out.append(("nameplate claim not released", "%s still claims its nameplate %r (all claims: %r)" % (c.name, known, leaked)))
                 else:
-                    out.append(("nameplate claim not released", "%s still claims %r" % (c.name, {k: sorted(v2["sides"]) for k, v2 in srv.nameplates.items()})))
+                    out.append(("claim made by an allocate whose response was lost is not released (allocate re-issued after a reconnect)",
+                                "%s knows nameplate %r, server still holds its claim on %r" % (c.name, known, leaked)))
             if srv.has_open(c.side):
                 out.append(("mailbox left open", c.name))
             moods = [m for (s, mb, m) in srv.closed if s == c.side]
@@ -116,7 +121,7 @@ class CloseExplore(Explore):
 
 
 def jobs(tier):
-    return make_jobs(CloseExplore, tier, 2, 3)
+    return make_jobs(CloseExplore, tier, 2, 3) + make_random_jobs(CloseExplore, tier)
 
 
 ASSUMPTIONS = [
